@@ -31,6 +31,10 @@ pub const K_CB: u8 = 6;
 pub const K_KEYHASHER: u8 = 7;
 pub const KIND_NAMES: [&str; 8] = ["any", "hash", "eq", "clone", "drop", "hasher", "cb", "keyhasher"];
 
+/// restart token numbering (start of every test, so that replays of one path are identical)
+pub fn reset_tokens() {
+    NEXT_TOKEN.with(|c| c.set(1));
+}
 pub fn mint() -> u64 {
     NEXT_TOKEN.with(|c| {
         let v = c.get();
@@ -92,7 +96,13 @@ pub fn tick(kind: u8) {
 }
 
 pub fn anomaly(s: String) {
-    ANOMALIES.with(|a| a.borrow_mut().push(s));
+    crate::qalloc::untracked(|| ANOMALIES.with(|a| a.borrow_mut().push(s)));
+}
+fn log_drop(tok: u64) {
+    crate::qalloc::untracked(|| DROPS.with(|d| d.borrow_mut().push(tok)));
+}
+pub fn log_cb(e: (u64, u64, u64, u64)) {
+    crate::qalloc::untracked(|| CB_LOG.with(|c| c.borrow_mut().push(e)));
 }
 pub fn take_anomalies() -> Vec<String> {
     ANOMALIES.with(|a| std::mem::take(&mut *a.borrow_mut()))
@@ -113,10 +123,10 @@ pub fn cb_take() -> Vec<(u64, u64, u64, u64)> {
 fn on_drop(what: &str, tok: u64, magic: &mut u64) {
     if *magic == MAGIC {
         *magic = DEAD;
-        DROPS.with(|d| d.borrow_mut().push(tok));
+        log_drop(tok);
     } else if *magic == DEAD {
         anomaly(format!("double-drop {what} tok={tok}"));
-        DROPS.with(|d| d.borrow_mut().push(tok));
+        log_drop(tok);
     } else {
         anomaly(format!("drop-of-garbage {what} magic={:#x}", *magic));
     }
